@@ -81,6 +81,13 @@ Theorem C19_rough_numeric_range : forall r1 r2 cutoff d v,
 Proof. exact rough_numeric_range. Qed.
 Print Assumptions C19_rough_numeric_range.
 
+(* ... and in [0, 1] for the cutoffs the constructor accepts *)
+Theorem C19_rough_numeric_unit : forall r1 r2 cutoff d v,
+  (0 <=? cutoff)%float = true -> (cutoff <=? 1)%float = true ->
+  root_numeric r1 r2 cutoff = Some d -> dres_value d = Some v -> in_range 1 v.
+Proof. exact rough_numeric_unit. Qed.
+Print Assumptions C19_rough_numeric_unit.
+
 (* operations / (len1 + len2) <= 1 is false for valid deltas (K13) *)
 Theorem C19_rough_range_refuted : ~ rough_range_statement.
 Proof. exact rough_range_refuted. Qed.
@@ -111,6 +118,14 @@ Theorem C19_rough_positive_if_nonempty_refuted :
   rough_distance (RVal k18_t1) (RVal k18_t2) (0x1.3333333333333p-2)%float (dv_of_sdelta k18_t1 k18_t2 k18_sd) = RInt0.
 Proof. exact rough_positive_refuted. Qed.
 Print Assumptions C19_rough_positive_if_nonempty_refuted.
+
+(* ... and true when some entry is a type change or carries a value containing a number or a string *)
+Theorem C19_rough_positive_if_nonempty_partial : forall t1 t2 sd cutoff,
+  forallb block_keys_ok sd = true ->
+  has_counted_entry t1 t2 sd = true ->
+  rough_distance (RVal t1) (RVal t2) cutoff (dv_of_sdelta t1 t2 sd) <> RInt0.
+Proof. exact rough_positive_partial. Qed.
+Print Assumptions C19_rough_positive_if_nonempty_partial.
 
 (* the two facts the bound rests on *)
 Theorem C19_item_length_le_count : forall v n,
